@@ -75,15 +75,27 @@ func (s *metricSchemaStore) GetSchema(id metric.ID) (schema *metric.Schema, err 
 	if ok {
 		return schema, nil
 	}
+	flushes := s.completedFlushes()
 	schema, err = s.getSchemaFromKV(id)
 	if err != nil {
 		return nil, err
 	}
 	if schema != nil {
 		verifhook.Yield("index.schemastore.get.beforeCache")
-		s.cache.Add(id, schema)
+		s.cacheSchema(id, schema, flushes)
 	}
 	return
+}
+
+// cacheSchema caches the schema read from the files if no flush completed since, else the flush purged the cache
+// and the old schema(without what that flush wrote) must not come back.
+func (s *metricSchemaStore) cacheSchema(id metric.ID, schema *metric.Schema, flushes int64) {
+	s.lock.RLock()
+	defer s.lock.RUnlock()
+
+	if s.flushes == flushes {
+		s.cache.Add(id, schema)
+	}
 }
 
 // genFieldID generates field id if field not exist.
